@@ -48,9 +48,9 @@ package authorizers
 //@   props C11
 //@   logged rdo
 //@   ensures ret1 == nil ==> ret0 != nil && rverify.n > old(rverify.n) && rverify.arg0[rverify.n - 1] == a && rverify.ret0[rverify.n - 1] == nil
-//@   assert at return#6: rverify.n > old(rverify.n) && rverify.arg0[rverify.n - 1] == a && rverify.ret0[rverify.n - 1] == nil
-//@   assert at return#1: ret1 != nil
-//@   assert at return#2: ret1 != nil
-//@   assert at return#3: ret1 != nil
-//@   assert at return#4: ret1 != nil
-//@   assert at return#5: ret1 != nil
+//@   assert at return#6@05bd7d3a.1: rverify.n > old(rverify.n) && rverify.arg0[rverify.n - 1] == a && rverify.ret0[rverify.n - 1] == nil
+//@   assert at return#1@b47942b0.1: ret1 != nil
+//@   assert at return#2@c24541ae.1: ret1 != nil
+//@   assert at return#3@971bece5.1: ret1 != nil
+//@   assert at return#4@608bda07.1: ret1 != nil
+//@   assert at return#5@608bda07.2: ret1 != nil
